@@ -78,6 +78,9 @@ def c07(chk):
                 c = ol.rand_case(rng, order, d, n, flags=f, k=k % 900,
                                  steps=rng.choice([1, 2, 7, 64] if chk.thorough() else [1, 2, 5]))
                 c.spec = ol.rand_spec(rng, zero_some=(rng.random() < 0.5))
+                if rng.random() < 0.1:
+                    c.x = ol.tiny_x(rng, c)           # durations decoding below one millisecond
+                    chk.count('decoded durations below 1 ms')
                 k += 1
                 cases.append(c)
     groups_q, groups_d = [], []
@@ -139,6 +142,9 @@ def c08(chk):
                 for _ in range(2 if not chk.thorough() else 5):
                     c = ol.rand_case(rng, order, d, n, k=k % 900, steps=rng.choice([1, 2, 3, 8, 64] if chk.thorough() else [1, 2, 3, 8]))
                     c.spec = ol.rand_spec(rng, zero_some=False)
+                    if rng.random() < 0.2:
+                        c.x = ol.tiny_x(rng, c)       # durations decoding below one millisecond
+                        chk.count('decoded durations below 1 ms')
                     k += 1
                     cases.append(c)
     groups = [c.setup_lines(i, 'Q') + [c.eval_line(f'{i}.v', 'Q', rec=1)] for i, c in enumerate(cases)]
@@ -554,6 +560,8 @@ def c15(chk):
 
         for st in range(rng.randint(6, 14)):
             op = rng.choice(['copy', 'assign', 'assign', 'selfassign', 'maps', 'mutate', 'destroy', 'eval', 'eval', 'ptrs'])
+            if len(live) < 2 and op in ('assign', 'destroy'):
+                op = 'copy'                    # assignments and destructions need a second object
             s = rng.choice(live)
             if op == 'copy':
                 t = rng.choice(slots)
@@ -567,7 +575,17 @@ def c15(chk):
                 t = rng.choice(live)
                 if t == s:
                     continue
+                if rng.random() < 0.5:
+                    # the target currently runs on *other* map instances than the source (for the paraboloid map the per-waypoint
+                    # number of unconstrained coordinates then differs): nothing of the target's old configuration may survive
+                    ct = copy.copy(state[t])
+                    ct.tmInst = rng.choice([i for i in (0, 1) if i != state[s].tmInst] or [0])
+                    ct.smInst = rng.choice([i for i in (0, 1, 2) if i != state[s].smInst])
+                    state[t] = ct
+                    g.append(f'{rid}.{st}.m Q opt_maps {t} {ct.tmInst} {ct.smInst}')
+                    chk.count('assignment over an optimizer that runs on other map instances')
                 g.append(f'{rid}.{st} Q opt_assign {s} {t}')
+                chk.count('assignment between two optimizers')
                 state[t] = copy.copy(state[s]); ws_exists[t] = ws_exists[s]
                 g.append(f'{rid}.{st}.p X opt_ptrs {t} {s}'); plan.append((f'{rid}.{st}.p', 'ptrs', (state[t], ws_exists[t], True), list(g)))
                 ev(t, 'a')
@@ -667,6 +685,14 @@ def c16_opt(chk):
                          ('time points non-increasing', {'tp': True, 'tpvals': [0.0, 1.0, 1.0, 2.0]}),
                          ('time points with inf', {'tp': True, 'tpvals': [0.0, 1.0, PINF, PINF]}),
                          ('valid', {}), ('several errors', {'h0': NAN, 'P00': PINF, 'bc00': NAN, 'rows': 5})]
+            # finite values of extreme magnitude are *valid* input (sums, norms or products of them overflow; a verdict computed
+            # from an aggregate instead of from every entry would reject them)
+            big = [1e308, -1.5e308, 1.7976931348623157e308]
+            variants += [('huge finite waypoint row', {f'P1{j}': rng.choice(big[:1] + big[2:]) for j in range(d)}),
+                         ('huge finite negative waypoint row', {f'P2{j}': big[1] for j in range(d)}),
+                         ('huge finite boundary state', {f'bc{b}{j}': rng.choice(big) for b in (0, 3) for j in range(d)}),
+                         ('huge finite start time', {'t0': rng.choice(big)}),
+                         ('huge finite mixed-sign waypoint row', {f'P3{j}': big[j % 2] for j in range(d)})]
             rng.shuffle(variants)
             # make sure the sequence "valid, then empty time points" occurs
             variants += [('valid', {}), ('empty time points', {'tp': True, 'n': 0, 'rows': 1}), ('valid', {})]
@@ -906,18 +932,25 @@ def c19(chk):
             variants.append(('waypoint', 2, rng.choice(vars_)[0], rng.choice([0.01, 0.5])))
         variants.append(('running_gp', 3, 0, rng.choice([0.05, -1.0])))
         variants.append(('running_gv', 4, 0, rng.choice([0.05, 1.0])))
-        for (name, pk, pi, pdel) in variants:
+        variants = [v + (1e-6, 1e-4) for v in variants]
+        # caller-chosen tolerances with an error between the chosen and the default tolerance, and the defaulted-argument forms
+        tsmall = rng.randrange(n)
+        variants.append(('tol1e-6', 1, tsmall, rng.choice([3e-5, -2e-5]), 1e-6, 1e-6))
+        variants.append(('tol1e-2', 1, tsmall, rng.choice([1e-3, -2e-3]), 1e-6, 1e-2))
+        variants.append(('defaults', 1, tsmall, rng.choice([0.0, 0.01]), -1.0, -1.0))
+        variants.append(('default-tol', 0, 0, 0.0, 1e-6, -1.0))
+        for (name, pk, pi, pdel, eps_, tol_) in variants:
             c2 = copy.copy(c); c2.spec = dict(sp, pertKind=pk, pertIdx=pi, pertDelta=pdel)
-            g.append(f'{rid}.{name} Q opt_check {c.slot} {ws} {len(c.x)} {hxs(c.x)} {c2.spec_tokens("Q")} {hx(1e-6)} {hx(1e-4)}')
+            g.append(f'{rid}.{name} Q opt_check {c.slot} {ws} {len(c.x)} {hxs(c.x)} {c2.spec_tokens("Q")} {hx(eps_)} {hx(tol_)}')
             g.append(c2.eval_line(f'{rid}.{name}.ref', 'X', ws=5000 + q, rec=1))
-            plan.append((f'{rid}.{name}', name, c2, ws))
+            plan.append((f'{rid}.{name}', name, c2, ws, tol_ if tol_ > 0 else 1e-4))
         groups.append(g)
     cpp, _ = run_cpp(groups)
     # model runs only the loop logic on the correct functor (exact central differences) for a subset
     sub = [[l for l in g if ('.correct ' in l or l.split()[2] != 'opt_check') and l.split()[1] != 'X'] for g in groups[:12 if not chk.thorough() else 60]]
     mq = run_groups_model(sub)
     chk.evaluations += len(plan)
-    for rid, name, c, ws in plan:
+    for rid, name, c, ws, tol_used in plan:
         a = cpp[rid]
         cells(chk, c, name, 'ext-ws' if ws >= 0 else 'int-ws')
         valid = int(a['valid'][0])
@@ -932,8 +965,8 @@ def c19(chk):
         diff = math.sqrt(sum(float(x - y) ** 2 for x, y in zip(an, nu)))
         if abs(en - diff) > 1e-9 * max(1.0, diff):
             chk.violation('reported error norm is not the norm of (analytical - numerical)', c.describe(), {'reported': en, 'recomputed': diff})
-        if valid != (1 if en < 1e-4 else 0):
-            chk.violation('verdict is not (error norm < tolerance)', c.describe(), {'valid': valid, 'error_norm': en})
+        if valid != (1 if en < tol_used else 0):
+            chk.violation('verdict is not (error norm < tolerance)', c.describe(), {'valid': valid, 'error_norm': en, 'tolerance': tol_used})
         # state restored: the workspace's spline is the one defined by the checked decision vector
         if a.get('coeffs') != ref.get('coeffs'):
             chk.violation('the self-check leaves the workspace spline different from the one defined by the checked decision vector', c.describe(),
@@ -946,8 +979,15 @@ def c19(chk):
                 chk.violation('self-check rejects correct user gradients of a well-scaled cost', c.describe(), {'error_norm': en, 'sum_abs_cost_terms': tabs})
             else:
                 chk.count('correct_but_rejected_cost_not_well_scaled(fd noise above tolerance; outside the stated domain)')
-        if name != 'correct' and valid:
-            # the perturbed component only matters if it reaches the gradient: time/waypoint always do; running-cost ones when integrated
+        if name in ('time', 'waypoint', 'running_gp', 'running_gv') and valid:
+            # a wrong component can only be noticed if it reaches the assembled gradient (e.g. a wrong position gradient of the
+            # running cost has no effect at all on a one-segment spline between fixed endpoints at rest: the sampled positions do
+            # not depend on the only decision variable). Its effect is the difference to the analytic vector of the correct functor.
+            base = cpp.get(rid.rsplit('.', 1)[0] + '.correct')
+            eff = math.sqrt(sum(float(x - y) ** 2 for x, y in zip(an, fv(base['analytical'])))) if base and 'analytical' in base else None
+            if eff is not None and eff < 3 * tol_used:
+                chk.count('perturbed component does not reach the gradient (effect below tolerance): nothing to detect')
+                continue
             chk.violation(f'self-check accepts a user functor whose {name} gradient component is wrong by more than the tolerance', c.describe(),
                           {'error_norm': en, 'perturbation': c.spec['pertDelta']})
         if name == 'correct' and rid in mq:
